@@ -88,7 +88,12 @@ func (h *Heap[T]) GetValues() []T {
 	h.mu.RLock()
 	defer h.mu.RUnlock()
 
-	return h.data
+	// Hand out a copy: the caller reads the result without the lock,
+	// while Push, Pop and Delete keep rearranging the heap's own array.
+	vals := make([]T, len(h.data))
+	copy(vals, h.data)
+
+	return vals
 }
 
 // Push inserts new elements at the end of the heap and calls the heapify algorithm to reorder
